@@ -33,11 +33,11 @@ CLAIMED["C01"] = dict(
    note="Kernel level only: ValueLane::write_to_buffer is mirrored through its store-level calls (consume for the event branch, read+has_data_to_write for the sync branch) because it is not separable from the Recon encoder; the sync_queue, run_agent's dirty_items loop, the runtime side (ValueBackpressure/Uplinks scheduling), several remotes and all task interleavings are outside. Shapes: all {set,consume} shapes to length 5 and all extended shapes to length 3 (+ seeded longer ones) quick; to 7 / 4 (+512 seeded) thorough. Single-threaded agent task assumed (the store is RefCell/Cell).",
    ref="DESIGN.md section 4, C01")
 CLAIMED["C07"] = dict(
-   text="Bounded symbolic model checking of the command-relief half: the real ValueBackpressure driven exactly as downlink::write_task drives it (write_direct when idle, push_operation while a write is in flight, has_data/prepare_write when it completes) over every sequence of submissions and completions up to length 3 (quick) / 4 (thorough) with concrete body lengths 0..2 and symbolic body bytes: the frames sent are an in-order subsequence of the commands and once idle the last frame is the last command (only superseded commands are dropped).",
+   text="Bounded symbolic model checking of the command-relief half: the real ValueBackpressure driven exactly as downlink::write_task drives it (write_direct when idle, push_operation while a write is in flight, has_data/prepare_write when it completes) over every sequence of submissions and completions up to length 3 (quick) / 4 (thorough, except shapes coalescing three or more non-empty commands under one in-flight write) with concrete body lengths 0..2 and symbolic body bytes: the frames sent are an in-order subsequence of the commands and once idle the last frame is the last command (only superseded commands are dropped).",
    note="Claimed for value downlinks' command relief only. Not applicable / outside: consumer attach/sync/linked/unlinked sessions (async select loops over tokio mpsc, timers, FramedRead), MapBackpressure/MapOperationQueue (Recon key comparison), the write task itself - its caller protocol is mirrored from downlink/mod.rs, not encoded. One genuine defect found and repaired (C07-X1).",
    ref="DESIGN.md section 4, C07")
 CLAIMED["C14"] = dict(
-   text="Bounded symbolic model checking of the supply half at strategy level: the real SupplyBackpressure driven as Uplinks::{push,replace_and_pop} drive it while the remote's writer is lent out, over every sequence of pushes (item length 0..2 concrete, bytes symbolic) and writer hand-backs up to length 3 (quick) / 4 (thorough): items handed out == items pushed - same order, same multiplicity, same bytes; one hand-back per item drains the queue.",
+   text="Bounded symbolic model checking of the supply half at strategy level: the real SupplyBackpressure driven as Uplinks::{push,replace_and_pop} drive it while the remote's writer is lent out, over every sequence of pushes (item length 0..2 concrete, bytes symbolic) and writer hand-backs up to length 3 (quick; thorough adds 40 seeded shapes of length 4): items handed out == items pushed - same order, same multiplicity, same bytes; one hand-back per item drains the queue.",
    note="Claimed for SupplyBackpressure only. Outside: command-lane handler invocation, ad hoc commands (CommandOutput/external_links), the Uplinks scheduler around the strategy (needs RemoteSender/byte channels), the agent-side SupplyLane queue, real channel writes and task interleavings. The caller protocol is mirrored from remotes/uplink/mod.rs, not encoded.",
    ref="DESIGN.md section 4, C14")
 
